@@ -221,6 +221,16 @@ def shape(e, roles=None, depth=20):
                 return xs
             return "%s[%s]" % (xs, is_)
         parts = [shape(a, roles, depth - 1) for a in e.args]
+        if cid in ("Option::is_some_and", "Option::flatten") and e.args:
+            a0 = e.args[0]
+            while isinstance(a0, Named) and a0.local not in roles:
+                a0 = a0.x
+            if isinstance(a0, Call):
+                inner = callee_id(a0.t)
+                if cid == "Option::is_some_and" and inner == "Result::ok" and len(parts) == 2 and len(a0.args) == 1:
+                    return "Result::is_ok_and(%s,%s)" % (shape(a0.args[0], roles, depth - 1), parts[1])  # r.ok().is_some_and(f)
+                if cid == "Option::flatten" and inner == "Option::map" and len(a0.args) == 2:
+                    return "Option::and_then(%s,%s)" % (shape(a0.args[0], roles, depth - 1), shape(a0.args[1], roles, depth - 1))  # o.map(f).flatten()
         if cid == "Option::unwrap_or" and len(parts) == 2 and len(e.args) == 2:
             a0 = e.args[0]
             while isinstance(a0, Named) and a0.local not in roles:
